@@ -15,7 +15,7 @@ from ..program import Interp
 from ..streams import Stream, digest, h64
 
 SELFTEST_ARG = {"pid": "C13", "tier": "quick", "light": True}
-TIERS = {"quick": (300, 32), "thorough": (6000, 1700)}
+TIERS = {"quick": (300, 100), "thorough": (6000, 1700)}
 HASHSEED_SLICE = {"quick": 3, "thorough": 24}  # scenarios cost ~1 s each and the cross-check runs them serially
 METHODS = ["SLSQP", "L-BFGS-B", "Nelder-Mead", "Powell"]
 FAULTS = ["real", "stall", "wander", "wander_after_real", "degenerate"]
